@@ -13,5 +13,18 @@ def run(tier, rep):
     specs = families.goldens() + sample(families.gen_c01, rng, n) + sample(families.gen_shape, rng, n) + sample(families.gen_occ, rng, n) \
         + sample(families.gen_flat, rng, 3 * n) + sample(families.gen_cascade, rng, n) \
         + sample(families.renamed(families.gen_shape), rng, n) + sample(families.renamed(families.gen_occ), rng, n // 2) + sample(families.renamed(families.gen_flat, "K", "I"), rng, n // 2) + sample(families.gen_affine_plain, rng, n // 2)
-    run_exec("C07", tier, rep, specs, ("NamesTruthful", "InputsUnchanged", "OutputRestored", "Err: update writes into an input"), cap_q=24, cap_t=120, rng=rng,
+    # set-iteration order decides which partitioning of a tensor is applied first: the deterministic partitioning cores are compiled in
+    # fresh interpreters under several string-hash seeds and injected flow-graph orders; every distinct text is one more program
+    from checks import C08
+    from common import workdir
+    core = families.double_flat_core() + families.flat_split_core()[::2]
+    with workdir("C07v") as wd:
+        res = C08.compile_variants(core, wd, 6 if q else 24, 2 if q else 8)
+    texts = {}
+    for k, tag, rc, out, err in res:
+        if rc == 0:
+            texts.setdefault((k, out), tag)
+    specs += [dict(core[k], text=t, key="%s@%s" % (core[k]["key"], tag), variant=tag) for (k, t), tag in sorted(texts.items(), key=lambda x: (x[0][0], x[1]))]
+    rep.cov["seed_variants_of_partitioning_cores"] = len(texts)
+    run_exec("C07", tier, rep, specs, ("NamesTruthful", "InputsUnchanged", "OutputRestored", "Err:"), cap_q=24, cap_t=120, rng=rng,
              rule="union of the C01-C05 families (own seed offset)")
